@@ -6,6 +6,7 @@ CONSTANTS
   TruncDens = {0, 4, 2}
   TieBug = FALSE
   Uninit = FALSE
+  K = 1
 INIT Init
 NEXT Next
 INVARIANTS BucketInv SortedInv NoOOBInv SplitInv EmptyInv SanityInv RowSumInv TruncSumInv RunInv
